@@ -249,6 +249,8 @@ def round_number(value: Union[float, int, Decimal]) -> Union[float, int, Decimal
         return value
     elif isinstance(value, float) and abs(value) >= 2 ** 52:
         return value  # no fraction digits (and too many integer digits for the decimal context)
+    elif isinstance(value, int):
+        return value  # already integral (a huge integer doesn't fit the decimal context)
 
     number = Decimal(value)
     if number > 0:
